@@ -88,9 +88,9 @@ func ruleInverseInvolution(c *core.Ctx) {
 		vals := map[string]string{}
 		for i, el := range cl.Elts {
 			if kv, ok := el.(*ast.KeyValueExpr); ok {
-				vals[kv.Key.(*ast.Ident).Name] = types.ExprString(kv.Value)
+				vals[kv.Key.(*ast.Ident).Name] = core.ExprStringNoParens(core.InlineLocals(info, d.Body, kv.Value))
 			} else if i < st.NumFields() {
-				vals[st.Field(i).Name()] = types.ExprString(el)
+				vals[st.Field(i).Name()] = core.ExprStringNoParens(core.InlineLocals(info, d.Body, el))
 			}
 		}
 		c.Check(vals["TypePair"] == "tc.Swap()", rule, name+"/Inverse/type pair swapped", d.Pos(), "TypePair: tc.Swap()", "the inverse does not swap old and new type: `"+vals["TypePair"]+"`")
@@ -152,7 +152,7 @@ func ruleWrapperRecursion(c *core.Ctx) {
 						for _, s := range cs.body {
 							if r, ok := s.(*ast.ReturnStmt); ok && len(r.Results) == 1 {
 								if ce, ok := r.Results[0].(*ast.CallExpr); ok {
-									if g := core.Callee(info, ce); g != nil && g.Origin() == f && len(ce.Args) == 1 && strings.HasSuffix(types.ExprString(ce.Args[0]), ".InnerChange") {
+									if g := core.Callee(info, ce); g != nil && g.Origin() == f && len(ce.Args) == 1 && strings.HasSuffix(core.ExprStringNoParens(core.InlineLocals(info, d.Body, ce.Args[0])), ".InnerChange") {
 										rec = true
 									}
 								}
